@@ -113,8 +113,8 @@ impl HdrCorrection for f64 {
 
     fn pq_inverse_eotf(self) -> Self {
         let ym1 = f64::powf(self / 10_000_f64, 0.1593017578125);
-        let numerator = (0.8359375 + 18.8515625) * ym1;
-        let divider = (1_f64 + 18.6875) * ym1;
+        let numerator = 0.8359375 + 18.8515625 * ym1;
+        let divider = 1_f64 + 18.6875 * ym1;
 
         if divider == 0_f64 {
             return 0_f64;
